@@ -14,6 +14,7 @@
 -/
 import QlibcModel.Seq.VectorBytes
 import QlibcModel.Seq.InvVectorLemmas
+import QlibcModel.Shapes.Seq
 namespace Qlibc.Props.C10
 open Qlibc Qlibc.Seq Qlibc.Seq.Spec
 
